@@ -674,10 +674,14 @@ def _report(rep, case, res, origin):
         rep.spec_drift(dmsg)
 
 
+# small models: do not let every JVM start a full set of JIT / GC threads
+SMALL_JVM = {"JAVA_TOOL_OPTIONS": "-XX:TieredStopAtLevel=1 -XX:CICompilerCount=1 -XX:ParallelGCThreads=2"}
+
+
 def _run_model(d, name, groups, consts, invariants=None, workers=16):
     invs = (INVARIANTS if invariants is None else invariants) + ["EmitRows"]
     spec, cfg = _model(d, name, groups, consts, invs)
-    return tlc.run_tlc(spec, cfg, coverage=True, workers=workers)
+    return tlc.run_tlc(spec, cfg, coverage=True, workers=workers, env=SMALL_JVM if workers < 16 else None)
 
 
 # one configuration for all spec mutants (DefaultGroups of ClassDecor.tla; unmutated it is part of the
@@ -704,7 +708,7 @@ def _submit_mutants(d, ex):
         lines = ["SPECIFICATION Spec", "CONSTANTS"] + [f"  {k} = {_tla(v)}" for k, v in c.items()]
         lines += ["  Groups <- DefaultGroups"] + [f"INVARIANT {inv}" for inv in invs] + ["CHECK_DEADLOCK FALSE"]
         cfg = write_file(d, f"mut_{label}.cfg", "\n".join(lines) + "\n")
-        futs[label] = (invs, ex.submit(tlc.run_tlc, "ClassDecor.tla", cfg, workers=2, heap="1g"))
+        futs[label] = (invs, ex.submit(tlc.run_tlc, "ClassDecor.tla", cfg, workers=1, heap="1g", env=SMALL_JVM))
     return futs
 
 
@@ -726,18 +730,18 @@ def _groups(tier):
     g.append(("derived", dict(VD=ALLV, Orders=main_orders)))
     g.append(("base", dict(VB=ALLV, VD=["Fa"] if q else ["Fa", "Cu", "Pua"],
                            VO=["none", "Pu"] if q else ["none", "Fa", "Pu", "Sa", "Dt"],
-                           Orders=["single", "basefirst", "derivedfirst", "basemember"] if q else
+                           Orders=["single", "basefirst", "basemember"] if q else
                            ["baseonly", "single", "basefirst", "derivedfirst", "basemember"])))
     g.append(("nested", dict(VI=ALLV, VDeep=["none", "Paa"] if q else ["none"] + some,
                              VD=["Fa"] if q else ["Fa", "Pu"],
-                             Orders=["single", "innerfirst", "outerfirst"] if q else
+                             Orders=["single", "innerfirst"] if q else
                              ["single", "innerfirst", "outerfirst", "twice"])))
     g.append(("alias", dict(Aliases=["Aux", "DerivedAux", "Base", "Self"], VD=["Fa", "Pu"], VI=["none", "Ca"],
                             Orders=["single", "twice", "basefirst", "derivedfirst"])))
     g.append(("dataclass", dict(DCs=["B", "D"], VD=["Fa", "Paa", "Cu"] if q else some, VB=["Fa", "Su"] if q else some,
                                 Orders=["dcbefore", "dcafter"])))
     g.append(("pairs", dict(VB=some if q else ALLV, VB2=some if q else ALLV, VD=["Fa"],
-                            Orders=["baseonly", "basemember", "derivedfirst"] if q else ["baseonly", "basemember"],
+                            Orders=["baseonly", "basemember"],
                             Confs=["D", "O0", "N"] if q else ["D", "N"])))
     g.append(("free", dict(Free=True, MaxOps=2 if q else 3, VB=["Ca"], VD=["Fa"] if q else ["Paa"], VI=["Sa"], VO=["none"],
                            Orders=[], Confs=["D", "O0", "N"] if q else ["D", "N"])))
@@ -779,15 +783,15 @@ def run(rep, tier, seed):
     import multiprocessing as mp
     # persistent workers, forked now while this process is small (a fork per case costs far more than a case:
     # every generated class has a process-unique name, so cases need no isolation from each other)
-    with scratch("c13-") as d, mp.get_context("fork").Pool(12) as pool, cf.ThreadPoolExecutor(8) as ex:
+    with scratch("c13-") as d, mp.get_context("fork").Pool(12) as pool, cf.ThreadPoolExecutor(11) as ex:
         tlc.sany("ClassDecor.tla")
-        mut_futs = _submit_mutants(d, ex)
         groups = _groups(tier)
         fut_main = ex.submit(_run_model, d, "C13Main", groups, {})
         # the 0.23.0 rule, rows only: used to explain mismatches of the alias group
         fut_alt = ex.submit(_run_model, d, "C13Alias023", [g for g in groups if g[0] in ("alias", "default")],
                              dict(Rule="prefix"), [], 4)
         opt_fut = ex.submit(_run_model, d, "C13Optimized", [("optimized", OPT_GROUP)], dict(Optimized=True), None, 4)
+        mut_futs = _submit_mutants(d, ex)       # (after the big run: the executor starts jobs in order)
         res = fut_main.result()
         rep.tlc(res, "ClassDecor, all groups: " + ", ".join(l for l, _ in groups))
         if res.violated:
